@@ -670,3 +670,95 @@ pub fn hash_case(tcs: &[String], s: Settings) -> u64 {
     s.hash(&mut h);
     h.finish()
 }
+
+/// Square-free word over {0,1,2} (the numbers of ones between consecutive zeros of the Thue-Morse word): no
+/// block is immediately repeated, so repetition conversion finds nothing to convert in it.
+pub fn square_free(n: usize, skip: usize) -> Vec<u8> {
+    let mut v = vec![];
+    let (mut k, mut count, mut started) = (0usize, 0u8, false);
+    while v.len() < n + skip {
+        if k.count_ones() % 2 == 0 {
+            if started {
+                v.push(count);
+            }
+            started = true;
+            count = 0;
+        } else {
+            count += 1;
+        }
+        k += 1;
+    }
+    v.split_off(skip)
+}
+
+/// The junction kinds of `boundary_case`: (name, left part, right part, filler symbols).
+pub const JUNCTIONS: [(&str, &str, &str, [&str; 3]); 9] = [
+    ("equal_pair", "z", "z", ["a", "b", "c"]),
+    ("equal_pair_of_two", "zy", "zy", ["a", "b", "c"]),
+    ("literal_class_text_then_digits", "\\d\\d\\d", "777", ["a", "b", "c"]),
+    ("literal_class_text_then_letters", "\\w\\w\\w", "qqq", ["-", "+", "="]),
+    ("literal_class_text_then_blanks", "\\s\\s", "  ", ["a", "b", "c"]),
+    ("run_across", "qqqqq", "qqqq", ["a", "b", "c"]),
+    ("period_across", "xyxyx", "yxyxy", ["a", "b", "c"]),
+    ("digits_then_digits", "1212", "1212", ["a", "b", "c"]),
+    ("cluster_pair", "e\u{301}", "e\u{301}", ["a", "b", "c"]),
+];
+
+/// One long test case without any immediate repetition (boundaries above 600: with a plain two-symbol period)
+/// except at a junction `left|right` whose right part starts at grapheme index `boundary + delta` (windowed / chunked / cached processing that ends there would show).
+/// The parts must consist of one-code-point graphemes (or be counted by the caller).
+pub fn boundary_case(junction: usize, boundary: usize, delta: isize, tail: usize) -> String {
+    let (_, left, right, fill) = JUNCTIONS[junction % JUNCTIONS.len()];
+    let left_len = if left.contains('\u{301}') { 1 } else { left.chars().count() };
+    let p = (boundary as isize + delta).max(left_len as isize + 1) as usize;
+    let mut s = String::new();
+    if boundary > 600 {
+        // the repetition search of grex needs gigabytes for 1000 graphemes without any period (it keeps every
+        // distinct substring); a periodic filler keeps the long cases cheap
+        for k in 0..p - left_len {
+            s.push_str(fill[(k + (p - left_len)) % 2]);
+        }
+    } else {
+        for x in square_free(p - left_len, 0) {
+            s.push_str(fill[x as usize]);
+        }
+    }
+    s.push_str(left);
+    s.push_str(right);
+    for x in square_free(tail, 7) {
+        s.push_str(fill[x as usize]);
+    }
+    s
+}
+
+/// A state with very many outgoing edges (`fanout` one-code-point test cases behind a common prefix) next to
+/// multi-code-point graphemes, their lone first code points and longer test cases that start with either
+/// (per-state edge indexes / tables that switch representation above some fan-out would show here).
+pub fn wide_fanout_family(rng: &mut Rng, fanout: usize) -> Vec<String> {
+    let mut pool: Vec<char> = (0x21u32..0x7f).filter_map(char::from_u32).collect();
+    pool.extend((0xc0u32..0x180).filter_map(char::from_u32));
+    pool.extend((0x391u32..0x3ca).filter_map(char::from_u32).filter(|c| c.is_alphabetic()));
+    pool.extend((0x4e00u32..0x4e80).filter_map(char::from_u32));
+    rng.shuffle(&mut pool);
+    let prefix = *rng.pick(&["", "", "x", "ab", "\u{1f44d}"]);
+    let mut v: Vec<String> = pool.iter().take(fanout).map(|c| format!("{prefix}{c}")).collect();
+    let clusters = ["\u{1f44d}\u{1f3fd}", "\u{1f1e9}\u{1f1ea}", "\u{1100}\u{1161}\u{11a8}", "e\u{301}", "\u{d4e}a", "\u{1f469}\u{200d}\u{1f4bb}", "a\u{1f3fb}", "\r\n", "1\u{fe0f}\u{20e3}"];
+    let k = 1 + rng.below(3);
+    for _ in 0..k {
+        let c = *rng.pick(&clusters);
+        let first: String = c.chars().take(1).collect();
+        let suffix: String = (0..1 + rng.below(5)).map(|_| *rng.pick(&["a", "b", "c", "d", "e"])).collect();
+        v.push(format!("{prefix}{c}"));
+        if rng.chance(3, 4) {
+            v.push(format!("{prefix}{first}"));
+        }
+        if rng.chance(3, 4) {
+            v.push(format!("{prefix}{first}{suffix}"));
+        }
+        if rng.chance(1, 2) {
+            v.push(format!("{prefix}{c}{suffix}x"));
+        }
+    }
+    rng.shuffle(&mut v);
+    v
+}
